@@ -448,9 +448,10 @@ class PoolManager(RequestMethods):
         kw["assert_same_host"] = False
         kw["redirect"] = False
 
-        # Record (or, when following a redirect, restore) the position of a
-        # file-like body so that it is sent again in full.
-        kw["body_pos"] = set_file_position(kw.get("body"), kw.get("body_pos"))
+        # Record the position of a file-like body or, when following a redirect,
+        # put the body back there so that it is sent again in full. The pool is
+        # not handed the position: to it a position means "this is a re-send".
+        body_pos = set_file_position(kw.get("body"), kw.pop("body_pos", None))
 
         if "headers" not in kw:
             kw["headers"] = self.headers
@@ -472,7 +473,7 @@ class PoolManager(RequestMethods):
             method = "GET"
             # And lose the body not to transfer anything sensitive.
             kw["body"] = None
-            kw["body_pos"] = None
+            body_pos = None
             kw["headers"] = HTTPHeaderDict(kw["headers"])._prepare_for_method_change()
 
         retries = kw.get("retries")
@@ -505,6 +506,7 @@ class PoolManager(RequestMethods):
         log.info("Redirecting %s -> %s", url, redirect_location)
 
         response.drain_conn()
+        kw["body_pos"] = body_pos
         return self.urlopen(method, redirect_location, **kw)
 
 
